@@ -150,11 +150,18 @@ pub fn expect(services: &[(SvcState, bool)], i: &IfSpec, v4: bool, q: &Message) 
                         for a in recs.addrs.iter() {
                             e.may_bring.insert(key_of(a));
                         }
+                        // the daemon lets the type's PTR bring the subtype's PTR along
+                        if let (false, Some(sp)) = (sub_match, recs.sub_ptr.as_ref()) {
+                            e.may_bring.insert(key_of(sp));
+                        }
                     } else if suppressed(answer, known) && !borderline(answer, known) {
                         e.suppressed_brings.insert(key_of(&recs.srv));
                         e.suppressed_brings.insert(key_of(&recs.txt));
                         for a in recs.addrs.iter() {
                             e.suppressed_brings.insert(key_of(a));
+                        }
+                        if let (false, Some(sp)) = (sub_match, recs.sub_ptr.as_ref()) {
+                            e.suppressed_brings.insert(key_of(sp));
                         }
                     }
                 } else if wire::names_eq_exact(&qu.name, &recs.meta.name) {
@@ -261,6 +268,10 @@ pub fn scenario(seed: u64, ka_heavy: bool) -> Made {
     if host_addrs.is_empty() {
         host_addrs.push(ifs[0].addrs[0].0);
     }
+    let family_split = shared && util::mix(seed, 0x5F) % 3 == 0;
+    if family_split {
+        desc.push_str(" family-split");
+    }
     let mut regs: Vec<RegInfo> = Vec::new();
     for s in 0..n_svcs {
         let ty = *rng.pick(&["_t._udp.local.", "_t._udp.local.", "_http._tcp.local.", "_p._sub._t._udp.local."]);
@@ -270,7 +281,17 @@ pub fn scenario(seed: u64, ka_heavy: bool) -> Made {
             _ => format!("svc{s}"),
         };
         let host = if shared { "Box.local.".to_string() } else { format!("box{s}.local.") };
-        let addrs = if shared {
+        let addrs = if shared && family_split {
+            // services sharing a host name, each giving the addresses of one family or of both: per record type
+            // the sets agree or are empty, so the services do not contradict one another
+            let v4s: Vec<IpAddr> = host_addrs.iter().filter(|a| a.is_ipv4()).copied().collect();
+            let v6s: Vec<IpAddr> = host_addrs.iter().filter(|a| a.is_ipv6()).copied().collect();
+            match rng.below(3) {
+                0 if !v4s.is_empty() => v4s,
+                1 if !v6s.is_empty() => v6s,
+                _ => host_addrs.clone(),
+            }
+        } else if shared {
             host_addrs.clone()
         } else {
             let mut v: Vec<IpAddr> = host_addrs.iter().filter(|_| rng.chance(3, 4)).copied().collect();
